@@ -210,11 +210,16 @@ func mathRandom(L *LState) int {
 		L.Push(LNumber(r.Intn(n) + 1))
 	default:
 		min := L.CheckInt(1)
-		max := L.CheckInt(2) + 1
-		if max-min <= 0 {
+		max := L.CheckInt(2)
+		if min > max {
 			L.ArgError(2, "interval is empty")
 		}
-		L.Push(LNumber(r.Intn(max-min) + min))
+		if n := max - min + 1; n > 0 {
+			L.Push(LNumber(r.Intn(n) + min))
+		} else {
+			// max-min+1 overflows int: draw as Lua does, floor(r*(u-l+1))+l in float64 arithmetic
+			L.Push(LNumber(math.Floor(r.Float64()*(float64(max)-float64(min)+1)) + float64(min)))
+		}
 	}
 	return 1
 }
